@@ -120,7 +120,8 @@ def xml_member(gen, name, t, v, ns, pref):
         ins = it.get('ns', gen.tns) if it['k'] == 'obj' else ns
         if it['k'] == 'prim' and it['p'] == 'Uuid':
             ins = 'http://spyne.io/schema'          # a leaf type with a namespace of its own
-        inner = ''.join(xml_member(gen, iname, dict(it, max=1), x, ins, pref) for x in (v.values() if isinstance(v, Sparse) else v))
+        # (an item that is None keeps its place: it is written as a nil item)
+        inner = ''.join(xml_member(gen, iname, dict(it, max=1), NIL if x is None else x, ins, pref) for x in (v.values() if isinstance(v, Sparse) else v))
         return '<%s>%s</%s>' % (q, inner, q)
     raise ValueError(t)
 
@@ -295,6 +296,11 @@ def _request(gen, fam, method, args, style='wrapped'):
         env.update(REQUEST_METHOD='GET', PATH_INFO='/' + method, QUERY_STRING=flat_query(args))
     else:
         raise ValueError(fam)
+    if NOISE[0] == 'straddle' and fam in ('xml', 'soap11', 'soap12'):
+        # a comment in front of the document whose last character is a two-byte one lying ACROSS the transport's
+        # first block boundary (8192): how the body is cut into blocks is no property of the document
+        body = ('<!--' + 'x' * (8191 - 4) + u'\u00e9' + '-->').encode('utf8') + body
+        assert body[8191] >= 0xc0 and 0x80 <= body[8192] < 0xc0
     return env, body
 
 
